@@ -111,7 +111,7 @@ def coq_make(log, targets=None):
     cp = os.path.join(COQ, "_CoqProject")
     if not os.path.exists(mk) or os.path.getmtime(mk) < os.path.getmtime(cp):
         sh(["coq_makefile", "-f", "_CoqProject", "-o", "Makefile"], cwd=COQ)
-    cmd = ["timeout", str(COQ_TIMEOUT), "make", "-k", "-j16"]
+    cmd = ["timeout", str(COQ_TIMEOUT), "make", "-k", "-j16", "COQC=" + os.path.join(ROOT, "bin/coqc-limited")]
     if targets:
         cmd += targets
     rc, out = sh(cmd, cwd=COQ, timeout=COQ_TIMEOUT + 60)
@@ -182,7 +182,7 @@ def check_props_file(pid, log):
     path = os.path.join(COQ, vf)
     src = open(path).read()
     theorems = re.findall(r'^\s*Theorem\s+([A-Za-z0-9_\']+)', src, re.M)
-    rc, out = sh(["timeout", "600", "coqc", "-Q", ".", "TR", "-w", "-notation-overridden", vf], cwd=COQ)
+    rc, out = sh([os.path.join(ROOT, "bin/coqc-limited"), "-Q", ".", "TR", "-w", "-notation-overridden", "-o", os.path.join(BUILD, "props_%s.vo" % pid), vf], cwd=COQ)
     log.append("== coqc %s rc=%d\n%s" % (vf, rc, out[-4000:]))
     assumptions = {}
     # Print Assumptions output: either "Closed under the global context" or "Axioms:\n name : type ..."
